@@ -22,8 +22,89 @@ fn cfg(first: usize, second: usize, ids: (&str, &str)) -> Cfg {
     Cfg { n, keys: vec!["a".into(), "b".into()], vals: vec!["".into(), "1".into(), "2".into()], grace_ms: 10_000, cluster_ids, seeds, props, mapped_addr_nodes: vec![] }
 }
 
+/// Every prefix of a foreign cluster's SYN (a datagram that lost its tail), for cluster ids in every
+/// relation, delivered to a real node: it is undecodable, or it is rejected and changes nothing.
+pub fn cut_foreign_syn() -> Part {
+    use crate::codec::{self, DigestEntry, Id, Msg, Op};
+    use crate::node::{Node, NodeOpts};
+    use crate::real;
+    use crate::util::guarded;
+    let mut part = Part::new("isolation/cut-foreign-syn");
+    part.rule = "a real node of cluster `own` (knowing one member with one key, and owning a key) receives every prefix (including the whole) of the bytes of a SYN of cluster `foreign` whose digest lists two foreign members, for (own, foreign) in {a/b, a/ab, ab/a, prod/prod-eu, prod-eu/prod, \"\"/a, a/\"\", a/A}; each prefix either fails to decode, or is answered by exactly BadCluster and leaves the node's members, key-values, heartbeats of other members and live/dead sets untouched; non-trivial = prefixes that decode".into();
+    let pairs: [(&str, &str); 8] = [("a", "b"), ("a", "ab"), ("ab", "a"), ("prod", "prod-eu"), ("prod-eu", "prod"), ("", "a"), ("a", ""), ("a", "A")];
+    let mut n_cases = 0u64;
+    for (own, foreign) in pairs {
+        let f1 = Id::v4("foreign-1", 1, 12_001);
+        let f2 = Id::v4("foreign-2", 1, 12_002);
+        let syn = codec::encode(&Msg::Syn { digest: vec![DigestEntry { id: f1.clone(), heartbeat: 7, gc: 0, mv: 3 }, DigestEntry { id: f2.clone(), heartbeat: 9, gc: 1, mv: 2 }], cluster_id: foreign.to_string() });
+        for n in 0..=syn.len() {
+            n_cases += 1;
+            let bytes = &syn[..n];
+            let msg = match guarded(|| real::real_decode(bytes)) {
+                Err(p) => {
+                    part.violation("C16", format!("decoding a SYN of cluster {foreign:?} cut to {n} bytes panicked: {p}"), "panic".into(), json_case(own, foreign, n));
+                    continue;
+                }
+                Ok(Err(_)) => {
+                    part.tally.inc("undecodable_prefixes");
+                    continue;
+                }
+                Ok(Ok((m, _))) => m,
+            };
+            part.tally.inc("decodable_prefixes");
+            let mut node = Node::new(&Id::v4("own-node", 1, 12_000), &NodeOpts { cluster_id: own.to_string(), ..Default::default() });
+            let known = Id::v4("own-peer", 1, 12_003);
+            node.cc.verif_process_message(real::build_real(&Msg::Syn { digest: vec![DigestEntry { id: known.clone(), heartbeat: 1, gc: 0, mv: 0 }], cluster_id: own.to_string() }).unwrap());
+            node.cc.verif_process_message(real::build_real(&Msg::Ack { ops: vec![Op::Node { id: known.clone(), gc: 0, from: 0 }, Op::Kv { key: "k".into(), value: "v".into(), version: 1, status: 0 }] }).unwrap());
+            node.cc.self_node_state().set("mine", "1");
+            let snapshot = |node: &Node| -> String {
+                let mut parts: Vec<String> = vec![];
+                for (id, ns) in node.cc.node_states() {
+                    let hb: u64 = if *id == node.real_id { 0 } else { ns.heartbeat().into() };
+                    let kvs: Vec<String> = ns.key_values_including_deleted().map(|(k, vv)| format!("{k}={}@{}", vv.value, vv.version)).collect();
+                    parts.push(format!("{} hb{hb} gc{} mv{} {kvs:?}", id.node_id, ns.last_gc_version(), ns.max_version()));
+                }
+                let mut live: Vec<String> = node.cc.live_nodes().map(|i| i.node_id.clone()).collect();
+                live.sort();
+                let mut dead: Vec<String> = node.cc.dead_nodes().map(|i| i.node_id.clone()).collect();
+                dead.sort();
+                parts.push(format!("live{live:?} dead{dead:?}"));
+                parts.join(" | ")
+            };
+            let before = snapshot(&node);
+            let reply = match guarded(|| node.cc.verif_process_message(msg)) {
+                Ok(r) => r,
+                Err(p) => {
+                    part.violation("C16", format!("processing a SYN of cluster {foreign:?} cut to {n} bytes panicked: {p}"), "panic".into(), json_case(own, foreign, n));
+                    continue;
+                }
+            };
+            let after = snapshot(&node);
+            let rejected = matches!(reply.as_ref().map(real::meaning_of_real), Some(real::Meaning::BadCluster));
+            if !rejected {
+                part.violation("C16", format!("node of cluster {own:?}: a SYN of cluster {foreign:?} cut to {n} of {} bytes is answered by {} instead of a rejection", syn.len(), reply.as_ref().map(|r| real::meaning_of_real(r).kind()).unwrap_or("nothing")), "foreign-syn-not-rejected".into(), json_case(own, foreign, n));
+            }
+            if after != before {
+                part.violation("C16", format!("node of cluster {own:?}: a SYN of cluster {foreign:?} cut to {n} of {} bytes changed the node's state: {before} -> {after}", syn.len()), "state-changed-by-foreign-syn".into(), json_case(own, foreign, n));
+            }
+        }
+    }
+    part.states = n_cases;
+    part.transitions = n_cases;
+    part.executions = n_cases;
+    part.distinct_nontrivial = part.tally.get("decodable_prefixes");
+    part.sample(serde_json::json!({"own": "prod", "foreign": "prod-eu", "cut_to": "len - 3"}));
+    part.require("decodable_prefixes");
+    part.require("undecodable_prefixes");
+    part
+}
+
+fn json_case(own: &str, foreign: &str, n: usize) -> serde_json::Value {
+    serde_json::json!({"engine":"isolation","kind":"cut-foreign-syn","own":own,"foreign":foreign,"cut_to":n})
+}
+
 pub fn run(tier: Tier) -> Vec<Part> {
-    let mut parts = vec![];
+    let mut parts = vec![cut_foreign_syn()];
     let shapes: Vec<(usize, usize, [u8; 7], u64)> = match tier {
         Tier::Quick => vec![(1, 1, [2, 3, 1, 0, 0, 0, 0], 6), (2, 1, [1, 3, 1, 0, 0, 0, 0], 12), (2, 2, [1, 2, 0, 0, 0, 0, 0], 12)],
         Tier::Thorough => vec![(1, 1, [3, 4, 2, 1, 1, 0, 0], 300), (2, 1, [2, 4, 1, 0, 0, 0, 0], 600), (2, 2, [1, 3, 1, 0, 0, 0, 0], 900), (3, 3, [1, 3, 0, 0, 0, 0, 0], 900), (1, 3, [1, 3, 1, 0, 0, 0, 0], 600)],
